@@ -7,6 +7,7 @@ import (
 	"math"
 	"os"
 	"path/filepath"
+	"runtime/debug"
 	"sort"
 	"strings"
 	"sync/atomic"
@@ -474,7 +475,12 @@ func execWal(c *ctx, line string) (obs string) {
 				if strings.Contains(fmt.Sprint(e), "invalid metric name") {
 					prop = "C20"
 				}
-				c.witness(prop, "wal-panic", fmt.Sprintf("panic: %v", e), line)
+				st := strings.ReplaceAll(string(debug.Stack()), "\n", " | ")
+				st = strings.ReplaceAll(st, "\t", " ")
+				if i := strings.Index(st, "panic("); i >= 0 {
+					st = st[i:]
+				}
+				c.witness(prop, "wal-panic", fmt.Sprintf("panic: %v @ %s", e, trunc(st, 900)), line)
 				done <- strings.Join(r.out, " ")
 			}
 		}()
